@@ -462,6 +462,22 @@ def r5_mate_distance(ctx):
                             return y
                         return cmp0(x)
 
+                    # a path that branches on the side to move (or on the sign once more) serves only the
+                    # combinations its conditions admit
+                    from ..paths import cond_holds
+                    feasible = True
+                    for (d_, c_, b_, ty_) in pe.conds:
+                        if not any(x[0] == "f" and x[2] == "turn" for x in [d_] + list(leaves(d_))) and VALUE not in list(leaves(d_)):
+                            continue
+                        try:
+                            v_ = fold(sub_turn(d_, t, sg))
+                        except Unfoldable:
+                            continue
+                        if not cond_holds(c_, v_):
+                            feasible = False
+                            break
+                    if not feasible:
+                        continue
                     expr = prep(sub_turn(r[3][0], t, sg))
                     syms = set()
                     form = affine_mul(expr, syms)
